@@ -16,6 +16,7 @@ def run(F, G, tier, seed):
                    "parameters and binders")
     effects.run_c13_seeds(chk, F, rid2)
     effects.run_reads(chk, F)
+    effects.run_callee(chk, F, ["collect_possible_reads"])
     effects.run_restricted(chk, F)
     from ..callgraph import CallGraph
     CG = CallGraph(F)
@@ -24,6 +25,8 @@ def run(F, G, tier, seed):
     effects.run_block_locals(chk, F, CG)
     effects.run_visitors(chk, F, visitors=("UTAP::CollectDependenciesVisitor",))
     descend.run(chk, F, ["depends_on", "collect_possible_reads"], [])
+    descend.run_recurfwd(chk, F, ["collect_possible_reads", "checkType", "isCompileTimeComputable", "depends_on"], minimum=3)
+    descend.run_randomdep(chk, F)
     # checkType reaches array sizes and nested types
     rid3 = "R-CHECKTYPE"
     chk.rule(rid3, "checkType recurses: ARRAY checks its size type and element type, RECORD every field, and every "
